@@ -1,8 +1,8 @@
 (* C15 -- Shipped problems' transitions and rewards match the documented dynamics.
    Age classes: position 0 = youngest ... last = oldest. *)
 From Coq Require Import ZArith QArith List Bool.
-From MdpaxV Require Import Model.ListUtil Model.Problems Model.ProblemOps Proofs.C15P Proofs.C14P Proofs.GenDeMoorP Proofs.GenMirjaliliP.
-From MdpaxGen Require GenDeMoor GenMirjalili.
+From MdpaxV Require Import Model.ListUtil Model.Problems Model.ProblemOps Proofs.C15P Proofs.C14P Proofs.GenDeMoorP Proofs.GenMirjaliliP Proofs.GenHendrixP.
+From MdpaxGen Require GenDeMoor GenMirjalili GenHendrix.
 Import GenDeMoor.
 Import ListNotations.
 Open Scope Z_scope.
@@ -25,6 +25,14 @@ Theorem generated_mirjalili_transition_is_the_modelled_one : forall (m : nat) (Q
    mj_reward Qmax c_var c_fix c_short c_waste c_hold (w :: stock) q d rec)%Q.
 Proof. exact gen_mj_transition_eq. Qed.
 Print Assumptions generated_mirjalili_transition_is_the_modelled_one.
+
+(* ... and for the Hendrix two-product problem (gen/GenHendrix.v): state = stock of A ++ stock of B, event = units issued *)
+Theorem generated_hendrix_transition_is_the_modelled_one : forall (m : nat) (ca cb pa pb : Q) state qa qb ia ib,
+  length state = (m + m)%nat ->
+  fst (GenHendrix.gen_transition m ca cb pa pb state [qa; qb] [ia; ib]) = hx_next m state qa qb ia ib /\
+  (snd (GenHendrix.gen_transition m ca cb pa pb state [qa; qb] [ia; ib]) == hx_reward ca cb pa pb qa qb ia ib)%Q.
+Proof. exact gen_hx_transition_eq. Qed.
+Print Assumptions generated_hendrix_transition_is_the_modelled_one.
 
 Theorem generated_issuing_is_the_modelled_issuing : forall stock d,
   gen_issue_fifo stock d = issue_fifo stock d /\ gen_issue_lifo stock d = issue_lifo stock d.
